@@ -15,7 +15,7 @@ pub fn def() -> CheckDef {
         meta: CheckMeta {
             id: "C10",
             level: "exploration",
-            rule: "seeded long stationary workloads (quick 800, thorough 4000 transactions each) over a bounded key set: (0) fixed-size overwrite, (1) variable-size overwrite/delete with values from 10 bytes to 4 pages, (2) bucket create/fill/delete cycles; variants: reopen every 25 transactions, 10% rollbacks, a reader pinned for the stretch [N/3, N/2) (file pre-sized, as in C03), and rolling young readers (a fresh reader open at the moment every writer begins and closed before its commit; or a reader opened after each commit and held across the whole next write transaction) which never need old pages. After every commit the independent parser measures live_t (reachable + free-list page run), dirty_t (pages in use now that were not in use before the commit) and the high-water mark H_t. Oracles: (i) without a pinned reader H_end <= 4*(max live + 2*max dirty) + 16 (fixed-size workload: max live + 3*max dirty + 8); (ii) with a pinned reader its dump stays equal to its snapshot at every 10th step, and H_end <= H_at_close + 2*max dirty + 8; (iii) the same across reopen; (iv) runs that begin with a one-off phase leaving more than 1024 pages in the free set (3000 keys put then deleted, or their bucket deleted) followed by the same stationary workloads: H at every step <= H when the stationary phase began + 2*max dirty + 8; every commit also passes exact page accounting and matches the model. Non-trivial = run of >= 300 commits whose cumulative dirty pages exceed 10x the bound (for (iv): >= 300 commits starting from more than 1024 free pages). Distinct = (workload, variant, seed).",
+            rule: "seeded long stationary workloads (quick 800, thorough 4000 transactions each) over a bounded key set: (0) fixed-size overwrite, (1) variable-size overwrite/delete with values from 10 bytes to 4 pages, (2) bucket create/fill/delete cycles (in a quarter of them with 500-byte keys, so that branch pages carry overflow runs); variants: reopen every 25 transactions, 10% rollbacks, a reader pinned for the stretch [N/3, N/2) (file pre-sized, as in C03), and rolling young readers (a fresh reader open at the moment every writer begins and closed before its commit; or a reader opened after each commit and held across the whole next write transaction) which never need old pages. After every commit the independent parser measures live_t (reachable + free-list page run), dirty_t (pages in use now that were not in use before the commit) and the high-water mark H_t. Oracles: (i) without a pinned reader H_end <= 4*(max live + 2*max dirty) + 16 (fixed-size workload: max live + 3*max dirty + 8); (ii) with a pinned reader its dump stays equal to its snapshot at every 10th step, and H_end <= H_at_close + 2*max dirty + 8; (iii) the same across reopen; (iv) runs that begin with a one-off phase leaving more than 1024 pages in the free set (3000 keys put then deleted, or their bucket deleted) followed by the same stationary workloads: H at every step <= H when the stationary phase began + 2*max dirty + 8; every commit also passes exact page accounting and matches the model. Non-trivial = run of >= 300 commits whose cumulative dirty pages exceed 10x the bound (for (iv): >= 300 commits starting from more than 1024 free pages). Distinct = (workload, variant, seed).",
             assumptions: &[
                 "bounds are relative to live and dirty pages measured on the same run, so a different fill factor or allocation policy that still reuses space stays within them",
                 "calibrated on the unchanged tree: H plateaus well inside the bound, a free list that never releases pages exceeds it within a few hundred transactions",
@@ -101,7 +101,9 @@ fn gen_tx(case: &C10Case, rng: &mut Rng, i: u32, model: &MBucket) -> Vec<Op> {
             ops.push(Op::GetOrCreate { b: ROOT_SEL, k: name(i), kk: 2 });
             // the new/updated bucket: address it by rank among non-root paths is fragile, so fill /w itself too
             ops.push(Op::PutRun { b: 0, base: b"f".to_vec(), start: (rng.below(30)) as u16, step: 1, n: 8, klen: 0, vlen: (100 + rng.below(300)) as u16 });
-            ops.push(Op::PutRun { b: (rng.below(65536)) as u16, base: b"g".to_vec(), start: (rng.below(10)) as u16, step: 1, n: 6, klen: 0, vlen: (50 + rng.below(600)) as u16 });
+            // in a quarter of these runs the cycled buckets hold 500-byte keys (branch pages with overflow runs)
+            let klen = if case.seed % 4 == 1 { 250 } else { 0 };
+            ops.push(Op::PutRun { b: (rng.below(65536)) as u16, base: b"g".to_vec(), start: (rng.below(10)) as u16, step: 1, n: 6, klen, vlen: (50 + rng.below(600)) as u16 });
             ops.push(Op::DeleteRun { b: (rng.below(65536)) as u16, start: (rng.below(65536)) as u16, n: 5 });
         }
     }
